@@ -224,7 +224,7 @@ func reduceScript(s tsgen.Script) []tsgen.Script {
 }
 
 func TestScripts(t *testing.T) {
-	vt.Run(t, rec, vt.Prop[tsgen.Script]{Kind: "script", Gen: func(t *rapid.T) tsgen.Script { return tsgen.Gen(t, genOpts()) }, Check: checkScript, Meta: metaScript, Reduce: reduceScript}, vt.N(500, 25000))
+	vt.Run(t, rec, vt.Prop[tsgen.Script]{Kind: "script", Gen: func(t *rapid.T) tsgen.Script { return tsgen.Gen(t, genOpts()) }, Check: checkScript, Meta: metaScript, Reduce: reduceScript}, vt.N(500, 8000))
 }
 
 // ---- model validation on the repository's own scripts (they must be predicted to pass) ----
@@ -324,6 +324,13 @@ func checkCLI(c cliCase) *vt.Fail {
 		if r.Unmodelled != "" {
 			return nil
 		}
+		// the prediction must not depend on the (unknown) absolute name of the work directory
+		h2 := h
+		h2.WorkAbs = "/tmp/zq-17/xk"
+		if r2 := tsmodel.New(s.P, h2, s.Files).Run(s.Text); r2.Unmodelled != "" || r2.Verdict != r.Verdict || fmt.Sprint(r2.FailLines) != fmt.Sprint(r.FailLines) {
+			rec.Class("cli:skipped-depends-on-work-path", 1)
+			return nil
+		}
 		if strings.Contains(s.Text, "[short]") || strings.Contains(s.Text, "[!short]") {
 			// known finding: the standalone command panics on [short] (testing.Short before flag parsing)
 			cliShort = true
@@ -390,7 +397,7 @@ func TestCLI(t *testing.T) {
 		return c
 	}, Check: checkCLI, Meta: func(c cliCase) vt.Meta {
 		return vt.Meta{NonTrivial: len(c.Scripts) > 1 || c.Continue, Classes: []string{fmt.Sprintf("batch=%d", len(c.Scripts))}}
-	}}, vt.N(15, 1500))
+	}}, vt.N(15, 250))
 }
 
 var replayers = vt.Replayer{"script": vt.Decode(checkScript), "cli": vt.Decode(checkCLI)}
